@@ -336,9 +336,24 @@ def r6(R):
     def edge(node, st, lab, tgt):
         # st: None (unset) | 'set' ; `unset_known`: branch established unset
         val, guard = st
+        if node.kind == 'loophead' and node.ast in f.node.body:
+            if val == 'unset-in-loop':
+                return Violation(
+                    'the sanity check can go round its loop (skipping an '
+                    'undone or empty transaction) before it has noted the '
+                    'tid of the transaction at the saved position: the tid '
+                    'it reports is that of an earlier transaction, and the '
+                    'storage reopens with a last transaction id older than '
+                    'the file\'s')
+            if val == 'unset':
+                return ('unset-in-loop', False)
         if node.kind == 'test' and lab in ('T', 'F'):
             for e, truth in implied_atoms(node.ast, lab):
                 if isinstance(e, ast.Name) and e.id == v:
+                    if truth and val in ('unset', 'unset-in-loop'):
+                        return PRUNE        # it is still None here
+                    if not truth and val == 'set':
+                        return PRUNE        # a tid is never falsy
                     guard = not truth
                 if isinstance(e, ast.Compare) and isinstance(
                         e.left, ast.Name) and e.left.id == v and isinstance(
@@ -350,7 +365,9 @@ def r6(R):
                     isinstance(t, ast.Name) and t.id == v
                     for t in node.ast.targets):
             if isinstance(node.ast.value, ast.Constant):
-                return ('unset', False)
+                return ('unset' if val != 'unset-in-loop' else val, False)
+            if val == 'unset-in-loop':
+                val = 'unset'
             if val == 'set' and not guard:
                 return Violation(
                     'the tid reported for the saved index is overwritten '
